@@ -6,7 +6,7 @@
                  all-or-nothing, per-device split for hard links / reflinks)
      group.rs    FileSubGroup::group           util.rs  try_sort_by_key, min_result, max_result
      main.rs     run_dedupe's merge of the recorded `group` configuration
-     group.rs    write_report's time stamp  (history model for C04, last section)
+     main.rs     run_group's time stamp (taken before the scan), group.rs write_report_at  (history model for C04)
    A [meta] is what fs::metadata (stat, FOLLOWING symlinks) returns for a report path. *)
 From FV Require Import Base SortLib.
 
@@ -341,6 +341,13 @@ Definition stat_of (m : hmember) (n : node) : option meta :=
 Definition hist_run (D : data) (members : list hmember) (op : dop) (c : dcfg)
   (same_mount : path -> path -> bool) (glen : N) : gres :=
   dedupe_group op c same_mount glen (map (fun m => stat_of m (final D m)) members).
+
+(* main.rs run_group (since 8227c8a): `start_time = Local::now()` is taken BEFORE group_files and recorded by
+   write_report_at, so the header's time stamp is not later than the read of any member.  (Before that commit
+   it was taken in write_report, after all reads: finding K1.)  A library user calling write_report, which
+   stamps the time of the call, does not get this ordering. *)
+Definition stamped_before_reads (ts : Z) (members : list hmember) : Prop :=
+  forall m, In m members -> (ts <= hr m)%Z.
 
 (* the text report keeps milliseconds: TIMESTAMP_FMT "%Y-%m-%d %H:%M:%S.%3f %z" (times in ns) *)
 Definition trunc_ms (t : Z) : Z := (t / 1000000 * 1000000)%Z.
